@@ -156,7 +156,7 @@ def run(run, ix, tier):
     run.rule('D-R2', floor=4, desc='constant_memo gate/shift/store order')
     run.rule('D-LU', floor=2, desc='LU cache precision tag')
     run.rule('D-R4', floor=5, desc='matrix mutators drop the cached LU')
-    run.rule('D-R3', floor=3, desc='no cross-context storage')
+    run.rule('D-R3', floor=2, desc='no cross-context storage')
     run.rule('D-R6', floor=1, desc='memoize key completeness')
     run.rule('D-R1f', floor=4, desc='values stored in a precision-keyed cache are computed at the key\'s precision')
 
